@@ -1,8 +1,8 @@
 package main
 
 import (
-	"go/types"
 	"go/token"
+	"go/types"
 	"strings"
 
 	"golang.org/x/tools/go/ssa"
@@ -405,6 +405,9 @@ func runC20Rest(c *Ctx) {
 	}
 	checkRescanEventsForwarded(c, "C20-R4")
 	checkConflictRemoval(c, "C20-R5")
+	// "stays recorded and is counted once": a coin that is both leased and spent by the recorded transaction is taken
+	// out of the balance exactly once (shared spendability-pass rule)
+	checkSpendPasses(c, "C20-R5", false)
 	// removing one rejected spender of a coin keeps all its other recorded spenders
 	checkNoAccumulatorReset(c, "C20-R5", "wtxmgr")
 }
